@@ -80,7 +80,13 @@ struct HList : public HashTable<Key_T, HLItem_T<Key_T>> {
     using BaseT::Size;
     using BaseT::Storage;
 
-    void operator+=(HList &&src) {
+    void operator+=(HList &&src_) {
+        if (this == &src_) {
+            // Merging a table into itself changes nothing.
+            return;
+        }
+
+        HList        src{Memory::Move(src_)};
         const SizeT  n_size   = (Size() + src.Size());
         HItem       *src_item = src.Storage();
         const HItem *src_end  = (src_item + src.Size());
